@@ -24,7 +24,10 @@
      func(a, b string) bool { return e } (a value: a function from two strings to e's value)   f(x, y) on such a value
      var ( ... ) groups with zero values   s[i:j] with its run-time bound   strings.Index / LastIndex (one byte) / Contains
      == < + - on integers   for _, v := range ValidNamesSplit(s, '/') (names_split) with break
-     in(errBuf, ...) called from In / Include means in_text *)
+     in(errBuf, ...) called from In / Include means in_text
+   and, for Ints:
+     tv.Len()  tv.Index(i).Interface() (slices and arrays, with the run-time bound)   x += e on strings
+     for i := 0; i < l; i++ { body } when the body assigns neither i nor l (a counted loop: l read once) *)
 From Coq Require Import String.
 From PGV Require Import Base.Bytes Base.GoStr Base.GoNum Base.Utf8 Base.MiniGo Regex.Re Regex.Rx Extracted.SourceRegex.
 From PGV Require Import Extracted.SourceConst Model.RuleText Model.Value Model.Clause Model.Rules.
@@ -39,6 +42,7 @@ Inductive rv :=
 | RKind (k : string)             (* a reflect.Kind, by name *)
 | RL (l : list str)              (* a slice of strings *)
 | RLB (l : list bool)            (* a slice of booleans (a variadic ...bool) *)
+| RSet (l : list str)            (* a map[string]struct{}: its keys, each once, in the order they were first added *)
 | RFn (f : str -> str -> option bool)     (* a function literal func(a, b string) bool { return e }: None when e is stuck *)
 | RBad.
 Definition renv := string -> rv.
@@ -49,9 +53,29 @@ Definition rempty : renv :=
            else if String.eqb y "DateFmt" then RZ DateFmt else if String.eqb y "DateTimeFmt" then RZ DateTimeFmt
            else if String.eqb y "toValErr" then RErr (Some (FRuleErr (s2b "to")))
            else if String.eqb y "otoValErr" then RErr (Some (FRuleErr (s2b "oto")))
+           else if String.eqb y "intsErr" then RErr (Some (FRuleErr (s2b "ints")))
+           else if String.eqb y "uniqueErr" then RErr (Some (FRuleErr (s2b "unique")))
            else if String.eqb y "inValErr" then RErr (Some (FRuleErr (s2b "in")))
            else if String.eqb y "includeErr" then RErr (Some (FRuleErr (s2b "include")))
            else RBad.
+
+Definition sadd (l : list str) (x : str) : list str := if existsb (str_eqb x) l then l else l ++ [x].
+
+(* fmt.Sprintf with %s verbs only: each %s takes the next argument; any other verb, or a wrong number of arguments, is
+   not given a meaning *)
+Fixpoint sprintf_s (f : str) (args : list str) : option str :=
+  match f with
+  | [] => match args with [] => Some [] | _ => None end
+  | 37%N :: 115%N :: r => match args with a :: rest => option_map (app a) (sprintf_s r rest) | [] => None end
+  | 37%N :: _ => None
+  | c :: r => option_map (cons c) (sprintf_s r args)
+  end.
+Fixpoint set_nth {X} (n : nat) (x : X) (l : list X) : list X :=
+  match l, n with
+  | [], _ => []
+  | _ :: r, O => x :: r
+  | a :: r, S m => a :: set_nth m x r
+  end.
 
 Definition rslice (s : str) (lo hi : Z) : rv :=
   if (0 <=? lo) && (lo <=? hi) && (hi <=? Z.of_nat (List.length s))
@@ -104,6 +128,38 @@ Fixpoint range_brk (l : list str) (idx : Z) (body : Z -> str -> renv -> rflow) (
               end
   end.
 
+(* for i := 0; i < l; i++ { body } where the body assigns neither i nor l: l iterations, i counting up; break ends it *)
+Fixpoint counted_loop (n : nat) (k : Z) (i : string) (body : renv -> rflow) (e : renv) : rflow :=
+  match n with
+  | O => RNext (rset i (RZ k) e)
+  | S m => match body (rset i (RZ k) e) with
+           | RNext e1 => counted_loop m (k + 1) i body e1
+           | RBrk e1 => RNext e1
+           | other => other
+           end
+  end.
+
+(* does a statement (list) assign the variable x?  (:=, =, op=, ++ / --, var, range variables) *)
+Fixpoint assigns (x : string) (s : stmt) {struct s} : bool :=
+  let any := fix any (l : list stmt) : bool := match l with [] => false | a :: r => assigns x a || any r end in
+  let names := fix names (l : list expr) : bool :=
+    match l with [] => false | EId y :: r => String.eqb y x || names r | _ :: r => names r end in
+  match s with
+  | SAssign _ lhs _ => names lhs
+  | SOpAssign _ (EId y) _ => String.eqb y x
+  | SIncDec _ (EId y) => String.eqb y x
+  | SVar ns _ _ => existsb (String.eqb x) ns
+  | SIf init _ th el => any init || any th || any el
+  | SFor init _ post body => any init || any post || any body
+  | SRange k v _ _ body =>
+    (match k with Some y => String.eqb y x | None => false end) || (match v with Some y => String.eqb y x | None => false end) || any body
+  | SBlock l => any l
+  | SSwitch init _ cases => any init || (fix cs (l : list (list expr * list stmt)) : bool := match l with [] => false | (_, b) :: r => any b || cs r end) cases
+  | STypeSwitch _ _ cases => (fix cs (l : list (list string * list stmt)) : bool := match l with [] => false | (_, b) :: r => any b || cs r end) cases
+  | _ => false
+  end.
+Definition assigns_any (x : string) (l : list stmt) : bool := existsb (assigns x) l.
+
 Section Sem.
   Variable orc : oracles.                  (* net.ParseIP and time.Parse, as tables the harness fills *)
   Variable unit_of : val -> str.           (* the unit text validInputSize / eq hand back ("length", "size", ...) *)
@@ -124,7 +180,9 @@ Section Sem.
     | EStr s => RS s
     | ELit z => RZ z
     | EUn op a => if String.eqb op "!" then match reval e a with RB b => RB (negb b) | _ => RBad end
-                  else if String.eqb op "-" then match reval e a with RZ z => RZ (- z) | _ => RBad end else RBad
+                  else if String.eqb op "-" then match reval e a with RZ z => RZ (- z) | _ => RBad end
+                  else if String.eqb op "..." then match reval e a with RL l => RL l | _ => RBad end     (* f(xs...) *)
+                  else RBad
     | EIndex a i =>
       match reval e a, reval e i with
       | RL l, RZ z => if 0 <=? z then match nth_error l (Z.to_nat z) with Some x => RS x | None => RBad end else RBad
@@ -154,15 +212,30 @@ Section Sem.
       else if String.eqb op "+" then
         match reval e a, reval e b with RS x, RS y => RS (x ++ y) | RZ x, RZ y => RZ (x + y) | _, _ => RBad end
       else if String.eqb op "<" then match reval e a, reval e b with RZ x, RZ y => RB (x <? y) | _, _ => RBad end
+      else if String.eqb op ">=" then match reval e a, reval e b with RZ x, RZ y => RB (y <=? x) | _, _ => RBad end
       else if String.eqb op "|" then match reval e a, reval e b with RZ x, RZ y => RZ (Z.lor x y) | _, _ => RBad end
       else if String.eqb op "<<" then match reval e a, reval e b with RZ x, RZ y => RZ (Z.shiftl x y) | _, _ => RBad end
       else if String.eqb op ">" then match reval e a, reval e b with RZ x, RZ y => RB (y <? x) | _, _ => RBad end
       else RBad
     | ESel (EId pkg) k => if String.eqb pkg "reflect" then RKind k else RBad
+    | ECall (ESel (ECall (ESel (EId t) m1) [i]) m2) [] =>       (* tv.Index(i).Interface() *)
+      if String.eqb m1 "Index" && String.eqb m2 "Interface" then
+        match e t, reval e i with
+        | RVal v, RZ z =>
+          match v with
+          | VSlice _ _ _ _ | VArray _ _ _ =>
+            if 0 <=? z then match nth_error (elems_of v) (Z.to_nat z) with Some x => RVal x | None => RBad end else RBad
+          | _ => RBad
+          end
+        | _, _ => RBad
+        end
+      else RBad
     | ECall (ESel (EId t) m) [] =>
       match e t with
       | RVal v =>
         if String.eqb m "Interface" then RVal v
+        else if String.eqb m "Len" then
+          match v with VSlice _ _ _ _ | VArray _ _ _ => RZ (Z.of_nat (List.length (elems_of v))) | _ => RBad end
         else if String.eqb m "String" then RS (value_string v)
         else if String.eqb m "Kind" then RKind (rkind v)
         else RBad
@@ -207,6 +280,14 @@ Section Sem.
         | _, _ => RBad
         end
       else RBad
+    | ECall (ESel (EId t) m) (a :: args) =>           (* fmt.Sprintf(format, args...) *)
+      if String.eqb t "fmt" && String.eqb m "Sprintf" then
+        let vs := (fix evs (l : list expr) : list rv := match l with [] => [] | x :: r => reval e x :: evs r end) args in
+        match reval e a, strs vs with
+        | RS f, Some l => match sprintf_s f l with Some r => RS r | None => RBad end
+        | _, _ => RBad
+        end
+      else RBad
     | ECall (EId f) args =>
       let vs := (fix evs (l : list expr) : list rv := match l with [] => [] | a :: r => reval e a :: evs r end) args in
       match e f with
@@ -232,12 +313,20 @@ Section Sem.
       else if String.eqb f "len" then
         match vs with
         | [RS x] => RZ (Z.of_nat (List.length x)) | [RL x] => RZ (Z.of_nat (List.length x)) | [RLB x] => RZ (Z.of_nat (List.length x))
+        | [RSet x] => RZ (Z.of_nat (List.length x))
+        | _ => RBad
+        end
+      else if String.eqb f "[]string{...}" then match strs vs with Some l => RL l | None => RBad end
+      else if String.eqb f "make" then        (* make(map[string]struct{}, n): an empty set; n is a capacity *)
+        match args with
+        | [EId ty; _] => if String.eqb ty "map[string]struct{}" then RSet [] else RBad
         | _ => RBad
         end
       else if String.eqb f "StrEscape" then match vs with [RS x] => RS (str_escape x) | _ => RBad end
       else if String.eqb f "ReflectKindIsNum" then match vs with [RKind k] => RB (kind_name_is_int k) | _ => RBad end
       else if String.eqb f "GetTimeFmt" then
         match vs with
+        | [RZ mask; RL l] => RS (get_time_fmt mask l)             (* GetTimeFmt(mask, splits...) *)
         | RZ mask :: splits => match strs splits with Some l => RS (get_time_fmt mask l) | None => RBad end
         | _ => RBad
         end
@@ -400,12 +489,34 @@ Section Sem.
         | _, _ => RStuck
         end
       else RStuck
+    | SOpAssign op (EId x) rhs =>
+      if String.eqb op "+" then
+        match e x, reval e rhs with RS a, RS b => RNext (rset x (RS (a ++ b)) e) | _, _ => RStuck end
+      else RStuck
+    | SFor [SAssign true [EId i] [ELit 0]] (Some (EBin op (EId i1) (EId l))) [SIncDec true (EId i2)] body =>
+      if String.eqb op "<" && String.eqb i1 i && String.eqb i2 i && negb (assigns_any i body) && negb (assigns_any l body) then
+        match e l with
+        | RZ n => if 0 <=? n then counted_loop (Z.to_nat n) 0 i (run body) e else RStuck
+        | _ => RStuck
+        end
+      else RStuck
     | SReturn [] => RRet e
     | SBreak => RBrk e
     | SBlock l => run l e           (* a var ( ... ) group: its names stay in scope *)
     | SVar [x] ty [] =>
       if String.eqb ty "bool" then RNext (rset x (RB false) e)
-      else if String.eqb ty "string" then RNext (rset x (RS []) e) else RStuck
+      else if String.eqb ty "string" then RNext (rset x (RS []) e)
+      else if String.eqb ty "map[string]struct{}" then RNext (rset x (RSet []) e) else RStuck
+    | SAssign false [EIndex (EId m) k] [EId lit] =>          (* m[k] = struct{}{} on a set;  a[i] = x on a slice of strings *)
+      match e m, reval e k with
+      | RSet l, RS x => if String.eqb lit "struct{}{}" then RNext (rset m (RSet (sadd l x)) e) else RStuck
+      | RL l, RZ z =>
+        match e lit with
+        | RS x => if (0 <=? z) && (z <? Z.of_nat (List.length l)) then RNext (rset m (RL (set_nth (Z.to_nat z) x l)) e) else RStuck
+        | _ => RStuck
+        end
+      | _, _ => RStuck
+      end
     | SVar [x] _ [rhs] => match reval e rhs with RBad => RStuck | v => RNext (rset x v e) end
     | SRange (Some i) (Some v) _ coll body =>
       match reval e coll with
